@@ -4,13 +4,6 @@ import (
 	vp "github.com/Tnze/go-mc/internal/zzvp"
 )
 
-func vpC14Lens() []int {
-	if vp.Tier() == 0 {
-		return []int{1, 4092, 4093, 8189}
-	}
-	return []int{1, 4091, 4092, 4093, 8187, 8188, 8189}
-}
-
 // one WriteSector from an arbitrary valid region state.
 func VP_C14_step() {
 	K, S := 1+vp.Choice(2), 6
@@ -25,7 +18,7 @@ func VP_C14_step() {
 		Seek(int64, int) (int64, error)
 	}
 	var mem *vpMemFile
-	if vp.Choice(2) == 0 {
+	if vp.Tier() == 0 || vp.Choice(2) == 0 {
 		mem = &vpMemFile{b: img}
 		f = mem
 	} else {
@@ -39,7 +32,7 @@ func VP_C14_step() {
 		vpExpectChunk(r, c, "before")
 	}
 	// the operation: write a live or a fresh coordinate
-	ti := vp.Choice(len(vpCoords))
+	ti := vp.Choice(vpLiveCoords() + 1) // a live coordinate or a fresh one
 	x, z := vpCoords[ti][0], vpCoords[ti][1]
 	lens := vpC14Lens()
 	n := lens[vp.Choice(len(lens))]
